@@ -3,6 +3,7 @@ package main
 import (
 	"fmt"
 	"go/token"
+	"go/types"
 	"strings"
 
 	"golang.org/x/tools/go/ssa"
@@ -214,6 +215,17 @@ func ruleC05(w *World, r *Report) {
 	portRuleConsumers(w, r, "R05.2", w.Fn(P, "pfcpiface.CreatePortRangeCartesianProduct"))
 	ruleC05Gauge(w, r)
 	ruleC05Complete(w, r)
+	ruleOwnershipMarksSurvive(w, r, "C05", "R05.7")
+	ruleC05TunnelPeerID(w, r)
+	// R05.9: the UP4 deletion gets through for a session with several PDRs of one direction
+	{
+		mod := w.Fn(P, "pfcpiface.(*UP4).modifyUP4ForwardingConfiguration")
+		allInstrs(mod, func(i ssa.Instruction) {
+			if c, ok := i.(*ssa.Call); ok && staticCallee(c) != nil && staticCallee(c).Name() == "ApplyTableEntries" {
+				statusFilterRule(w, r, "R05.9", "gone", mod, c)
+			}
+		})
+	}
 	markBothLists(w, r, "R05.4")
 }
 
@@ -589,4 +601,196 @@ func ruleC05Complete(w *World, r *Report) {
 		}
 		r.floor("R05.6 returns of "+name, m, 1)
 	}
+}
+
+// ruleOwnershipMarksSurvive (R05.7, re-filed as R06.8 and R07.9): what the UPF allocated for a PDR — the
+// UE IP (allocIPFlag) and the TEID (UPAllocateFteid) — is given back at session end by looking at these
+// two marks on the stored PDRs. An Update PDR does not carry the CHOOSE flags again, so when UpdatePDR
+// replaces the stored PDR by the parsed one it has to carry the marks over; otherwise every
+// attach / Update PDR / detach cycle leaks an address and a TEID.
+func ruleOwnershipMarksSurvive(w *World, r *Report, prop, rule string) {
+	upd := w.Fn(prop, "pfcpiface.(*PFCPSession).UpdatePDR")
+	un := w.FuncName(upd)
+	var elemStore *ssa.Store
+	allInstrs(upd, func(i ssa.Instruction) {
+		if st, ok := i.(*ssa.Store); ok {
+			if ia, ok := st.Addr.(*ssa.IndexAddr); ok && strings.HasSuffix(symOf(ia.X).String(), ".pdrs") {
+				elemStore = st
+			}
+		}
+	})
+	if elemStore == nil {
+		r.trivial(rule, un, "UpdatePDR does not replace the stored PDR wholesale", w.Pos(upd.Pos()), "field-wise update")
+		return
+	}
+	// is v a load of field F of an element of s.pdrs (directly, or of the range copy of it)?
+	var elemField func(v ssa.Value, field string, d int) bool
+	elemField = func(v ssa.Value, field string, d int) bool {
+		if d > 6 || v == nil {
+			return false
+		}
+		switch x := v.(type) {
+		case *ssa.UnOp:
+			if x.Op == token.MUL {
+				if fa, ok := x.X.(*ssa.FieldAddr); ok && fieldVar(fa) != nil && fieldVar(fa).Name() == field {
+					s := symOf(fa.X).String()
+					if strings.Contains(s, ".pdrs") {
+						return true
+					}
+					// the range copy: a local cell filled from an element of s.pdrs
+					if al, ok := fa.X.(*ssa.Alloc); ok {
+						for _, st := range storesTo(al) {
+							if st.Addr == ssa.Value(al) && strings.Contains(symOf(st.Val).String(), ".pdrs") {
+								return true
+							}
+						}
+					}
+				}
+			}
+		case *ssa.Field:
+			if st, ok := x.X.Type().Underlying().(*types.Struct); ok && x.Field < st.NumFields() && st.Field(x.Field).Name() == field {
+				return strings.Contains(symOf(x.X).String(), ".pdrs")
+			}
+		case *ssa.BinOp:
+			return elemField(x.X, field, d+1) || elemField(x.Y, field, d+1)
+		case *ssa.Phi:
+			for _, e := range x.Edges {
+				if elemField(e, field, d+1) {
+					return true
+				}
+			}
+		}
+		return false
+	}
+	for _, field := range []string{"allocIPFlag", "UPAllocateFteid"} {
+		kept := false
+		allInstrs(upd, func(i ssa.Instruction) {
+			st, ok := i.(*ssa.Store)
+			if !ok {
+				return
+			}
+			fa, ok := st.Addr.(*ssa.FieldAddr)
+			if !ok || fieldVar(fa) == nil || fieldVar(fa).Name() != field {
+				return
+			}
+			if reach(upd, st, func(j ssa.Instruction) bool { return j == ssa.Instruction(elemStore) }, nil, nil) == nil {
+				return
+			}
+			// data dependence, or control dependence on the stored element's mark
+			if elemField(st.Val, field, 0) {
+				kept = true
+				return
+			}
+			if onlyVia(upd, st, func(a, b *ssa.BasicBlock) bool {
+				v, truth, ok := boolEdge(a, b)
+				return ok && truth && elemField(v, field, 0)
+			}) {
+				kept = true
+			}
+		})
+		r.check(kept, rule, un, "the stored PDR's "+field+" mark survives an Update PDR", w.Pos(elemStore.Pos()), "carried over before the element is replaced", "UpdatePDR replaces the stored PDR by the parsed one without carrying "+field+" over: an Update PDR does not repeat the CHOOSE flag, so after it the session-end release ("+ifelse(field == "allocIPFlag", "releaseAllocatedIPs", "releaseAllocatedTEIDs")+") no longer sees what was allocated — one "+ifelse(field == "allocIPFlag", "UE address", "TEID")+" leaks per attach / Update PDR / detach cycle until the pool is exhausted")
+	}
+}
+
+// ruleC05TunnelPeerID (R05.8): a tunnel-peer ID taken for a new peer goes back to the queue when the
+// peer cannot be written. unsafeReleaseAllocatedGTPTunnelPeer finds the ID by looking the peer up in
+// tunnelPeerIDs, so calling it is an effective release only for a peer that is registered there; for a
+// peer that is registered only after a successful write, the error path has to return the ID itself.
+func ruleC05TunnelPeerID(w *World, r *Report) {
+	const P = "C05"
+	f := w.Fn(P, "pfcpiface.(*UP4).addOrUpdateGTPTunnelPeer")
+	fn := w.FuncName(f)
+	alloc := w.Fn(P, "pfcpiface.(*UP4).unsafeAllocateGTPTunnelPeerID")
+	release := w.Fn(P, "pfcpiface.(*UP4).unsafeReleaseAllocatedGTPTunnelPeer")
+	acs := callsTo(f, alloc)
+	if len(acs) != 1 {
+		r.bad("R05.8", fn, "one allocation site of a tunnel-peer ID", w.Pos(f.Pos()), fmt.Sprintf("%d allocation calls", len(acs)))
+		return
+	}
+	ac := acs[0].(*ssa.Call)
+	appendsPool := func(g *ssa.Function) bool {
+		found := false
+		allInstrs(g, func(i ssa.Instruction) {
+			if st, ok := i.(*ssa.Store); ok {
+				if fa, ok := st.Addr.(*ssa.FieldAddr); ok && fieldVar(fa) != nil && fieldVar(fa).Name() == "tunnelPeerIDsPool" {
+					if c, ok := st.Val.(*ssa.Call); ok && calleeName(c) == "builtin.append" {
+						found = true
+					}
+				}
+			}
+		})
+		return found
+	}
+	registeredBefore := func(i ssa.Instruction) bool {
+		ok := false
+		allInstrs(f, func(j ssa.Instruction) {
+			if mu, isMu := j.(*ssa.MapUpdate); isMu && strings.HasSuffix(symOf(mu.Map).String(), "UP4.tunnelPeerIDs") && instrDominates(j, i) {
+				ok = true
+			}
+		})
+		return ok
+	}
+	effective := func(i ssa.Instruction) bool {
+		c, ok := i.(ssa.CallInstruction)
+		if !ok {
+			if st, isSt := i.(*ssa.Store); isSt {
+				if fa, ok := st.Addr.(*ssa.FieldAddr); ok && fieldVar(fa) != nil && fieldVar(fa).Name() == "tunnelPeerIDsPool" {
+					return true
+				}
+			}
+			return false
+		}
+		g := staticCallee(c)
+		if g == nil {
+			return false
+		}
+		if g == release {
+			return registeredBefore(i)
+		}
+		if g.Parent() == f {
+			if appendsPool(g) {
+				return true
+			}
+			if len(callsTo(g, release)) > 0 {
+				return registeredBefore(i)
+			}
+		}
+		return false
+	}
+	// from the success edge of the allocation
+	var start ssa.Instruction
+	errV := extractOf(ac, 1)
+	for _, b := range f.Blocks {
+		for _, sc := range b.Succs {
+			if nilnessEdge(b, sc, func(x ssa.Value) bool { return x == errV }, true) && len(sc.Instrs) > 0 {
+				start = sc.Instrs[0]
+			}
+		}
+	}
+	if start == nil {
+		r.bad("R05.8", fn, "the allocation's error is examined", w.Pos(ac.Pos()), "no err == nil edge after unsafeAllocateGTPTunnelPeerID")
+		return
+	}
+	n := 0
+	for k, ret := range returnsOf(f) {
+		if isNilConst(res(ret, 0)) {
+			continue
+		}
+		if reach(f, start, func(i ssa.Instruction) bool { return i == ssa.Instruction(ret) }, nil, nil) == nil && start != ssa.Instruction(ret) {
+			continue
+		}
+		n++
+		// after the allocation the peer is known to be new: the "peer existed" arm of any later test on the
+		// same lookup is not taken
+		newPeer := func(a, b *ssa.BasicBlock) bool {
+			v, truth, ok := boolEdge(a, b)
+			return ok && truth && strings.Contains(symOf(v).String(), "UP4.tunnelPeerIDs[]#ok")
+		}
+		miss := reach(f, start, func(i ssa.Instruction) bool { return i == ssa.Instruction(ret) }, effective, newPeer)
+		if effective(start) {
+			miss = nil
+		}
+		r.check(miss == nil, "R05.8", fn, fmt.Sprintf("failing exit #%d gives the new tunnel-peer ID back", k+1), w.Pos(ret.Pos()), "ID appended to the queue (or the registered peer released)", "after a failed write the error path calls unsafeReleaseAllocatedGTPTunnelPeer, which looks the peer up in tunnelPeerIDs — where a new peer is registered only after a successful write — and so releases nothing: the ID taken from the queue is lost, and after enough rejected requests no tunnel peer can be created any more")
+	}
+	r.floor("R05.8 failing exits after the allocation of a tunnel-peer ID", n, 2)
 }
